@@ -1519,10 +1519,41 @@ def _map_overlap(interp, a, func, *args, depth=0, boundary=None, trim=True, dtyp
     return OverlapResult(items, info)
 
 
+def _map_blocks(interp, a, func, *args, dtype=None, chunks=None, drop_axis=None, new_axis=None, meta=None, name=None, **kw):
+    """dask `arr.map_blocks(f, ...)`: f is applied to every block separately and the results are put side by side.
+    The chunking is arbitrary (n_a >= 1 blocks along axis a, symbolic).  With one block per axis the result is
+    f(whole array); otherwise only the shape is known: each block contributes what f adds to its extent (modelled for
+    shape-changing f through the extent f gives the whole array: n_a blocks grow the axis n_a times)."""
+    if chunks is not None or drop_axis is not None or new_axis is not None:
+        raise Unsupported("map_blocks with chunks / drop_axis / new_axis")
+    whole = A.from_nested(interp.call(func, [a] + list(args), kw))
+    if whole.ndim != a.ndim:
+        raise Unsupported("map_blocks with a function changing the number of axes")
+    nbs, single = [], []
+    for ax in range(a.ndim):
+        nb = V.fresh("numblocks", "int")
+        interp.path.assume(V.compare(">=", nb, 1))
+        interp.path.assume(V.compare("<=", nb, V.smax(a.shape[ax], 1)))
+        nbs.append(nb)
+        single.append(V.compare("==", nb, 1))
+    one = V.sand(*single)
+    grow = [V.arith("-", whole.shape[ax], a.shape[ax]) for ax in range(a.ndim)]
+    shp = tuple(V.arith("+", a.shape[ax], V.arith("*", nbs[ax], grow[ax])) for ax in range(a.ndim))
+    wf = whole.snapshot()
+    other = _uf_array("map_blocks", shp, whole.dtype)
+    of = other.snapshot()
+
+    def fn(idx):
+        return V.ite(one, wf(idx), of(idx))
+    return SArr(shp, fn, whole.dtype)
+
+
 def _arr_method(arr, name):
     a = arr
     if name == "chunks":
         return tuple(ChunkSizesV(s_) for s_ in a.shape)
+    if name == "map_blocks":
+        return wants_interp(lambda interp, func, *args, **kw: _map_blocks(interp, a, func, *args, **kw))
     if name == "map_overlap":
         return wants_interp(lambda interp, func, *args, **kw: _map_overlap(interp, a, func, *args, **kw))
     if name == "shape":
